@@ -48,6 +48,7 @@ type e struct {
 	m        sync.Mutex
 	l        *rate.Limiter
 	lastSeen time.Time
+	removed  bool // set (under m) when gc drops e from the map. A removed e must not be used.
 }
 
 // Creates a ClientLimiter.
@@ -64,12 +65,21 @@ func NewClientLimiter(opts ClientLimiterOpts) *ClientLimiter {
 }
 
 func (cl *ClientLimiter) AllowN(addr netip.Addr, now time.Time, n int) bool {
-	e, _ := cl.m.LoadOrCompute(cl.mask(addr), func() *e { return &e{l: rate.NewLimiter(rate.Limit(cl.opts.Limit), cl.opts.Burst)} })
-	e.m.Lock()
-	e.lastSeen = now
-	ok := e.l.AllowN(now, n)
-	e.m.Unlock()
-	return ok
+	key := cl.mask(addr)
+	for {
+		e, _ := cl.m.LoadOrCompute(key, func() *e { return &e{l: rate.NewLimiter(rate.Limit(cl.opts.Limit), cl.opts.Burst)} })
+		e.m.Lock()
+		if e.removed {
+			// gc dropped e after we got it from the map. Tokens taken from it would
+			// be forgotten. Get (or create) the entry that is in the map now.
+			e.m.Unlock()
+			continue
+		}
+		e.lastSeen = now
+		ok := e.l.AllowN(now, n)
+		e.m.Unlock()
+		return ok
+	}
 }
 
 // Stop gc goroutine.
@@ -113,10 +123,13 @@ func (cl *ClientLimiter) gc() {
 		// Otherwise, the client would get a new (full) bucket, which is
 		// another burst, with its next query.
 		full := value.l.TokensAt(now) >= float64(value.l.Burst())
-		value.m.Unlock()
 		if lastSeen.Before(ddl) && full {
+			// Drop the entry while holding its lock, and mark it. So that a concurrent
+			// AllowN call that already has it does not take tokens from a dropped entry.
+			value.removed = true
 			cl.m.Delete(key)
 		}
+		value.m.Unlock()
 		return true
 	})
 }
